@@ -101,7 +101,32 @@ Pick(v, n) == RepChoices(v)[(n % Len(RepChoices(v))) + 1]
 ReprFor(var) == IF var = 1 THEN Hint("a", a, Pick(a, i + j))
                 ELSE Hint("a", a, Pick(a, i + j + 1)) @@ Hint("b", b, Pick(b, i + 2 * j))
 
+\* The operands reached by a property lookup and by an index instead of by name (m.x op m.y, l[0] op l[1]):
+\* same table.  The representations of the two values are again picked by the pair's indices.
+MM == <<109>>
+LL == <<108>>
+XX == <<120>>
+YY == <<121>>
+PBit(x, y) == [k \in 1..7 |-> Bit([t |-> "cmp", op |-> Ops[k], a |-> x, b |-> y])]
+              \o << Bit([t |-> "and", a |-> x, b |-> y]), Bit([t |-> "or", a |-> x, b |-> y]) >>
+PropX == [t |-> "prop", e |-> Var(MM), name |-> XX]
+PropY == [t |-> "prop", e |-> Var(MM), name |-> YY]
+Idx0 == [t |-> "idx", e |-> Var(LL), i |-> [t |-> "lit", v |-> IntV(0)]]
+Idx1 == [t |-> "idx", e |-> Var(LL), i |-> [t |-> "lit", v |-> IntV(1)]]
+PropProg == PBit(PropX, PropY) \o PBit(PropY, PropX)
+IdxProg == PBit(Idx0, Idx1) \o PBit(Idx1, Idx0)
+PropHint(path, v, ch) ==
+  CASE ch = "elem0" -> (path \o "/0") :> "drop"
+    [] ch = "elemlast" -> (path \o "/" \o ToString(Len(v.v) - 1)) :> "drop"
+    [] OTHER -> path :> ch
+
 EmitCase ==
+  /\ PrintT(ToJson([id |-> "prop-" \o ToString(i) \o "-" \o ToString(j), kind |-> "render", tm |-> "TraceC09",
+                    a |-> a, b |-> b, prog |-> PropProg, env |-> << <<MM, MapV(<< <<XX, a>>, <<YY, b>> >>)>> >>,
+                    repr |-> PropHint("m/x", a, Pick(a, i + j + 2)) @@ PropHint("m/y", b, Pick(b, i + 2 * j + 1))]))
+  /\ PrintT(ToJson([id |-> "idx-" \o ToString(i) \o "-" \o ToString(j), kind |-> "render", tm |-> "TraceC09",
+                    a |-> a, b |-> b, prog |-> IdxProg, env |-> << <<LL, Arr(<<a, b>>)>> >>,
+                    repr |-> PropHint("l/0", a, Pick(a, i + j + 3)) @@ PropHint("l/1", b, Pick(b, 2 * i + j))]))
   /\ \A var \in 1..2 :
        PrintT(ToJson([id |-> "rep" \o ToString(var) \o "-" \o ToString(i) \o "-" \o ToString(j), kind |-> "render", tm |-> "TraceC09",
                       a |-> a, b |-> b, prog |-> Prog, env |-> << <<A, a>>, <<B, b>> >>, repr |-> ReprFor(var)]))
